@@ -472,58 +472,67 @@ fn reason_as_exported(r: &str) -> String {
     out
 }
 
-fn all_reasons(e: &Expect) -> Vec<String> {
-    let mut v = vec![];
+/// every rendered element with its text: (description, indentation level) / deprecation reasons. The subscription
+/// root is not rendered under the federation option.
+fn rendered_texts(e: &Expect, o: &O) -> (Vec<(String, usize)>, Vec<String>) {
+    let (mut descs, mut reasons) = (vec![], vec![]);
     for t in e.sch.types.values() {
+        if o.federation && Some(&t.name) == e.sch.subscription.as_ref() {
+            continue;
+        }
+        descs.extend(t.desc.clone().map(|d| (d, 0)));
         for f in &t.fields {
-            v.extend(f.deprecated.clone().flatten());
+            descs.extend(f.desc.clone().map(|d| (d, 1)));
+            reasons.extend(f.deprecated.clone().flatten());
             for a in &f.args {
-                v.extend(a.deprecated.clone().flatten());
+                descs.extend(a.desc.clone().map(|d| (d, 2)));
+                reasons.extend(a.deprecated.clone().flatten());
             }
         }
         for x in &t.values {
-            v.extend(x.deprecated.clone().flatten());
+            descs.extend(x.desc.clone().map(|d| (d, 1)));
+            reasons.extend(x.deprecated.clone().flatten());
         }
         for a in &t.input_fields {
-            v.extend(a.deprecated.clone().flatten());
+            descs.extend(a.desc.clone().map(|d| (d, 1)));
+            reasons.extend(a.deprecated.clone().flatten());
         }
     }
-    v
+    (descs, reasons)
 }
-fn all_descriptions(e: &Expect) -> Vec<String> {
-    let mut v = vec![];
-    for t in e.sch.types.values() {
-        v.extend(t.desc.clone());
-        for f in &t.fields {
-            v.extend(f.desc.clone());
-            for a in &f.args {
-                v.extend(a.desc.clone());
-            }
-        }
-        for x in &t.values {
-            v.extend(x.desc.clone());
-        }
-        for a in &t.input_fields {
-            v.extend(a.desc.clone());
-        }
-    }
-    v
+fn all_texts(e: &Expect) -> Vec<String> {
+    let (d, r) = rendered_texts(e, &O::default());
+    d.into_iter().map(|x| x.0).chain(r).collect()
 }
 
-/// replace every occurrence of a `bad` rendering by its `good` one in ONE left-to-right pass (longest match first, the
-/// replaced text is not scanned again)
-fn replace_pairs(text: &str, mut pairs: Vec<(String, String)>) -> Option<String> {
-    pairs.sort_by(|x, y| y.0.len().cmp(&x.0.len()));
-    pairs.dedup();
+/// a text repair that cannot be applied unambiguously (the deviating rendering of one text also occurs inside another)
+struct Ambiguous;
+
+/// Replace every occurrence of a deviating rendering by the correct one in ONE left-to-right pass (longest match
+/// first, the replaced text is not scanned again). `pats` = (deviating, correct, must start a line); one entry per
+/// rendered element, so the number of occurrences of each rendering is known — any other count means the text is
+/// ambiguous. Ok(None) = nothing to repair.
+fn replace_renderings(text: &str, pats: Vec<(String, String, bool)>) -> Result<Option<String>, Ambiguous> {
+    let mut uniq: Vec<(String, String, bool, usize, usize)> = vec![];
+    for (bad, good, anchored) in pats {
+        match uniq.iter_mut().find(|u| u.0 == bad) {
+            Some(u) => u.3 += 1,
+            None => uniq.push((bad, good, anchored, 1, 0)),
+        }
+    }
+    if uniq.is_empty() {
+        return Ok(None);
+    }
+    uniq.sort_by(|x, y| y.0.len().cmp(&x.0.len()));
     let mut out = String::new();
     let mut rest = text;
-    let mut hit = false;
     'outer: while !rest.is_empty() {
-        for (bad, good) in &pairs {
-            if rest.starts_with(bad.as_str()) {
-                out.push_str(good);
-                rest = &rest[bad.len()..];
-                hit = true;
+        let line_start = out.is_empty() || out.ends_with('\n');
+        for u in uniq.iter_mut() {
+            if (line_start || !u.2) && rest.starts_with(u.0.as_str()) {
+                out.push_str(&u.1);
+                rest = &rest[u.0.len()..];
+                u.4 += 1;
                 continue 'outer;
             }
         }
@@ -531,48 +540,44 @@ fn replace_pairs(text: &str, mut pairs: Vec<(String, String)>) -> Option<String>
         out.push(c);
         rest = &rest[c.len_utf8()..];
     }
-    hit.then_some(out)
+    if uniq.iter().any(|u| u.3 != u.4) {
+        return Err(Ambiguous);
+    }
+    Ok(Some(out))
 }
 
 /// C17-F1: a deprecation reason is written between double quotes with its own double quotes unescaped
-fn repair_f1(sdl: &str, e: &Expect) -> Option<String> {
-    let mut pairs = vec![];
-    for r in all_reasons(e) {
+fn repair_f1(sdl: &str, e: &Expect, o: &O) -> Result<Option<String>, Ambiguous> {
+    let mut pats = vec![];
+    for r in rendered_texts(e, o).1 {
         if r.contains('"') {
-            pairs.push((format!("@deprecated(reason: \"{}\")", reason_as_exported(&r)), format!("@deprecated(reason: \"{}\")", reason_as_exported(&r).replace('"', "\\\""))));
+            pats.push((format!("@deprecated(reason: \"{}\")", reason_as_exported(&r)), format!("@deprecated(reason: \"{}\")", reason_as_exported(&r).replace('"', "\\\"")), false));
         }
     }
-    replace_pairs(sdl, pairs)
+    replace_renderings(sdl, pats)
 }
 /// C17-F2: a description written as a block string keeps `"""` unescaped
-fn repair_f2(sdl: &str, e: &Expect, o: &O) -> Option<String> {
-    let mut pairs = vec![];
-    for d in all_descriptions(e) {
+fn repair_f2(sdl: &str, e: &Expect, o: &O) -> Result<Option<String>, Ambiguous> {
+    let mut pats = vec![];
+    for (d, level) in rendered_texts(e, o).0 {
         if d.contains("\"\"\"") && !(o.single_line && !d.contains('\n')) {
-            for level in 0..3 {
-                let tabs = o.tab().repeat(level);
-                let block = |text: &str| format!("{tabs}\"\"\"\n{tabs}{}\n{tabs}\"\"\"\n", text.replace('\n', &format!("\n{tabs}")));
-                pairs.push((block(&d), block(&d.replace("\"\"\"", "\\\"\"\""))));
-            }
+            let tabs = o.tab().repeat(level);
+            let block = |text: &str| format!("{tabs}\"\"\"\n{tabs}{}\n{tabs}\"\"\"\n", text.replace('\n', &format!("\n{tabs}")));
+            pats.push((block(&d), block(&d.replace("\"\"\"", "\\\"\"\"")), true));
         }
     }
-    replace_pairs(sdl, pairs)
+    replace_renderings(sdl, pats)
 }
 /// C17-F3: a description written as a one-line string keeps backslashes unescaped
-fn repair_f3(sdl: &str, e: &Expect, o: &O) -> Option<String> {
-    if !o.single_line {
-        return None;
-    }
-    let mut pairs = vec![];
-    for d in all_descriptions(e) {
-        if d.contains('\\') && !d.contains('\n') {
-            for level in 0..3 {
-                let tabs = o.tab().repeat(level);
-                pairs.push((format!("{tabs}\"{}\"\n", d.replace('"', "\\\"")), format!("{tabs}\"{}\"\n", d.replace('\\', "\\\\").replace('"', "\\\""))));
-            }
+fn repair_f3(sdl: &str, e: &Expect, o: &O) -> Result<Option<String>, Ambiguous> {
+    let mut pats = vec![];
+    for (d, level) in rendered_texts(e, o).0 {
+        if o.single_line && d.contains('\\') && !d.contains('\n') {
+            let tabs = o.tab().repeat(level);
+            pats.push((format!("{tabs}\"{}\"\n", d.replace('"', "\\\"")), format!("{tabs}\"{}\"\n", d.replace('\\', "\\\\").replace('"', "\\\"")), true));
         }
     }
-    replace_pairs(sdl, pairs)
+    replace_renderings(sdl, pats)
 }
 /// C17-F4 (dynamic schemas): the `implements` list of an interface is not exported
 fn adjust_f4(e: &Expect) -> Option<Expect> {
@@ -606,14 +611,23 @@ fn repair_f5(sdl: &str) -> Option<String> {
     hit.then(|| lines.join("\n"))
 }
 
+enum Judged {
+    Pass,
+    Known(Vec<&'static str>),
+    /// no verdict: the deviation involves texts whose deviating renderings cannot be told apart in the SDL
+    Ambiguous,
+    Fail(String),
+}
+
 /// strict oracle, then attribution to the smallest set of OPEN findings whose quirks explain the deviation exactly
-fn judge_sdl(sdl: &str, e: &Expect, o: &O, dynamic: bool, open: &[bool; 5]) -> Result<Vec<&'static str>, String> {
+fn judge_sdl(sdl: &str, e: &Expect, o: &O, dynamic: bool, open: &[bool; 5]) -> Judged {
     let why = match strict(sdl, e, o) {
-        Ok(()) => return Ok(vec![]),
+        Ok(()) => return Judged::Pass,
         Err(w) => w,
     };
     let mut best: Option<Vec<&'static str>> = None;
     let mut residual = String::new();
+    let mut ambiguous = false;
     for mask in 1u32..32 {
         let set: Vec<usize> = (0..5).filter(|i| mask & (1 << i) != 0).collect();
         if set.iter().any(|i| !open[*i]) || best.as_ref().map_or(false, |b| b.len() <= set.len()) {
@@ -624,21 +638,25 @@ fn judge_sdl(sdl: &str, e: &Expect, o: &O, dynamic: bool, open: &[bool; 5]) -> R
         let mut applicable = true;
         for i in &set {
             let r = match i {
-                0 => repair_f1(&text, e),
+                0 => repair_f1(&text, e, o),
                 1 => repair_f2(&text, e, o),
                 2 => repair_f3(&text, e, o),
-                4 => repair_f5(&text),
+                4 => Ok(repair_f5(&text)),
                 _ => {
                     match (dynamic, adjust_f4(&exp)) {
                         (true, Some(e2)) => exp = e2,
                         _ => applicable = false,
                     }
-                    Some(text.clone())
+                    Ok(Some(text.clone()))
                 }
             };
             match r {
-                Some(t) => text = t,
-                None => applicable = false,
+                Ok(Some(t)) => text = t,
+                Ok(None) => applicable = false,
+                Err(Ambiguous) => {
+                    ambiguous = true;
+                    applicable = false;
+                }
             }
         }
         if applicable {
@@ -648,7 +666,11 @@ fn judge_sdl(sdl: &str, e: &Expect, o: &O, dynamic: bool, open: &[bool; 5]) -> R
             }
         }
     }
-    best.ok_or(format!("{}{}", why, residual))
+    match best {
+        Some(ids) => Judged::Known(ids),
+        None if ambiguous => Judged::Ambiguous,
+        None => Judged::Fail(format!("{}{}", why, residual)),
+    }
 }
 
 // ---------------------------------------------------------------------------------------------------------------
@@ -962,7 +984,7 @@ struct Tally {
     inheritance: bool,
 }
 fn tally(e: &Expect) -> Tally {
-    let escapes = all_descriptions(e).iter().chain(all_reasons(e).iter()).any(|t| needs_escape(t))
+    let escapes = all_texts(e).iter().any(|t| needs_escape(t))
         || e.sch.types.values().any(|t| {
             t.input_fields.iter().chain(t.fields.iter().flat_map(|f| f.args.iter())).any(|a| matches!(&a.default, Some(Val::Str(x)) if needs_escape(x)))
         });
@@ -975,9 +997,10 @@ fn one_export(sdl: &str, e: &Expect, o: &O, dynamic: bool, open: &[bool; 5], wha
     let t = tally(e);
     let text = format!("{}\noptions: {}", what, o.show());
     let c = match judge_sdl(sdl, e, o, dynamic, open) {
-        Ok(ids) if ids.is_empty() => Case::pass(text),
-        Ok(ids) => Case::known(text, ids.iter().map(|s| s.to_string()).collect()),
-        Err(why) => Case::fail(format!("{}\nSDL:\n{}", text, sdl), why),
+        Judged::Pass => Case::pass(text),
+        Judged::Known(ids) => Case::known(text, ids.iter().map(|s| s.to_string()).collect()),
+        Judged::Ambiguous => return Case::discard("ambiguous text repair"),
+        Judged::Fail(why) => Case::fail(format!("{}\nSDL:\n{}", text, sdl), why),
     };
     let nontrivial = t.escapes || t.inheritance || *o != O::default();
     c.nontrivial(nontrivial)
@@ -1019,7 +1042,7 @@ fn dynamic_case(s: &mut dyn Src, allow: &Allow, open: &[bool; 5], k: usize) -> C
         let c = one_export(&sdl, &e, o, true, open, &what);
         nontrivial |= c.nontrivial;
         classes.extend(c.classes.iter().cloned());
-        if c.is_fail() {
+        if c.is_fail() || matches!(c.verdict, vcore::drive::Verdict::Discard(_)) {
             return c;
         }
         if let vcore::drive::Verdict::Known(ids) = c.verdict {
